@@ -1,0 +1,121 @@
+//go:build verif
+
+// Verification hooks. Compiled only with -tags verif; add-only; nothing here is
+// referenced by the library itself.
+package raft
+
+import (
+	"bytes"
+
+	pb "github.com/jmsadair/raft/internal/protobuf"
+	"google.golang.org/protobuf/proto"
+)
+
+// ---- codec access (C19, C12, C13): the exact functions the library uses ----
+
+// VerifEncodeLogEntry is encodeLogEntry (length header + protobuf record).
+func VerifEncodeLogEntry(entry *LogEntry) ([]byte, error) {
+	var buf bytes.Buffer
+	err := encodeLogEntry(&buf, entry)
+	return buf.Bytes(), err
+}
+
+// VerifDecodeLogEntry is decodeLogEntry on a byte slice.
+func VerifDecodeLogEntry(data []byte) (LogEntry, error) {
+	return decodeLogEntry(bytes.NewReader(data))
+}
+
+// VerifEncodeState is encodePersistentState.
+func VerifEncodeState(term uint64, votedFor string) ([]byte, error) {
+	var buf bytes.Buffer
+	err := encodePersistentState(&buf, &persistentState{term: term, votedFor: votedFor})
+	return buf.Bytes(), err
+}
+
+// VerifDecodeState is decodePersistentState.
+func VerifDecodeState(data []byte) (uint64, string, error) {
+	state, err := decodePersistentState(bytes.NewReader(data))
+	return state.term, state.votedFor, err
+}
+
+// VerifEncodeConfiguration / VerifDecodeConfiguration are the package-level codec.
+func VerifEncodeConfiguration(configuration *Configuration) ([]byte, error) {
+	return encodeConfiguration(configuration)
+}
+
+func VerifDecodeConfiguration(data []byte) (Configuration, error) {
+	return decodeConfiguration(data)
+}
+
+// Wire forms of the six RPC messages: converter + proto.Marshal, and back.
+func VerifMarshalAppendEntriesRequest(r AppendEntriesRequest) ([]byte, error) {
+	return proto.Marshal(makeProtoAppendEntriesRequest(r))
+}
+
+func VerifUnmarshalAppendEntriesRequest(data []byte) (AppendEntriesRequest, error) {
+	m := &pb.AppendEntriesRequest{}
+	if err := proto.Unmarshal(data, m); err != nil {
+		return AppendEntriesRequest{}, err
+	}
+	return makeAppendEntriesRequest(m), nil
+}
+
+func VerifMarshalAppendEntriesResponse(r AppendEntriesResponse) ([]byte, error) {
+	return proto.Marshal(makeProtoAppendEntriesResponse(r))
+}
+
+func VerifUnmarshalAppendEntriesResponse(data []byte) (AppendEntriesResponse, error) {
+	m := &pb.AppendEntriesResponse{}
+	if err := proto.Unmarshal(data, m); err != nil {
+		return AppendEntriesResponse{}, err
+	}
+	return makeAppendEntriesResponse(m), nil
+}
+
+func VerifMarshalRequestVoteRequest(r RequestVoteRequest) ([]byte, error) {
+	return proto.Marshal(makeProtoRequestVoteRequest(r))
+}
+
+func VerifUnmarshalRequestVoteRequest(data []byte) (RequestVoteRequest, error) {
+	m := &pb.RequestVoteRequest{}
+	if err := proto.Unmarshal(data, m); err != nil {
+		return RequestVoteRequest{}, err
+	}
+	return makeRequestVoteRequest(m), nil
+}
+
+func VerifMarshalRequestVoteResponse(r RequestVoteResponse) ([]byte, error) {
+	return proto.Marshal(makeProtoRequestVoteResponse(r))
+}
+
+func VerifUnmarshalRequestVoteResponse(data []byte) (RequestVoteResponse, error) {
+	m := &pb.RequestVoteResponse{}
+	if err := proto.Unmarshal(data, m); err != nil {
+		return RequestVoteResponse{}, err
+	}
+	return makeRequestVoteResponse(m), nil
+}
+
+func VerifMarshalInstallSnapshotRequest(r InstallSnapshotRequest) ([]byte, error) {
+	return proto.Marshal(makeProtoInstallSnapshotRequest(r))
+}
+
+func VerifUnmarshalInstallSnapshotRequest(data []byte) (InstallSnapshotRequest, error) {
+	m := &pb.InstallSnapshotRequest{}
+	if err := proto.Unmarshal(data, m); err != nil {
+		return InstallSnapshotRequest{}, err
+	}
+	return makeInstallSnapshotRequest(m), nil
+}
+
+func VerifMarshalInstallSnapshotResponse(r InstallSnapshotResponse) ([]byte, error) {
+	return proto.Marshal(makeProtoInstallSnapshotResponse(r))
+}
+
+func VerifUnmarshalInstallSnapshotResponse(data []byte) (InstallSnapshotResponse, error) {
+	m := &pb.InstallSnapshotResponse{}
+	if err := proto.Unmarshal(data, m); err != nil {
+		return InstallSnapshotResponse{}, err
+	}
+	return makeInstallSnapshotResponse(m), nil
+}
